@@ -319,6 +319,49 @@ theorem complaints_nil_iff (m : Mon) (ev : EventKind) (s : Seen) :
     exact ⟨h.onePerRegion, h.validMoves, h.equalEpoch, h.higherReplace, h.endOnLeave, h.recorded,
       h.addressed, h.staleGone, h.ownNotStale⟩
 
+/-! ### competing end transitions (concurrent stream) -/
+
+/-- what is observed of a race of end transitions on one started operator: how many participants
+    reported success, the operator's status afterwards, the statuses the winners remembered -/
+structure RaceSeen where
+  wins   : Nat
+  final  : Status
+  rememb : List Status
+  deriving Repr
+
+/-- exactly one transition wins, the operator has ended, and what was remembered is its final status -/
+structure RaceOk (r : RaceSeen) : Prop where
+  oneWinner : r.wins = 1
+  ended     : r.final.isEnd = true
+  remembered : ∀ s ∈ r.rememb, s = r.final
+
+def raceComplaints (r : RaceSeen) : List String :=
+  (if r.wins != 1 then [s!"sig=C09.racing-end-transitions-winners-not-one wins={r.wins} final={r.final.name}"] else []) ++
+  ((if !r.final.isEnd then [s!"sig=C09.raced-operator-not-ended final={r.final.name}"] else []) ++
+   (if !(r.rememb.all (fun s => s == r.final)) then
+      [s!"sig=C09.remembered-status-differs-from-final final={r.final.name} remembered={r.rememb.map Status.name}"] else []))
+
+theorem raceComplaints_nil_iff (r : RaceSeen) : raceComplaints r = [] ↔ RaceOk r := by
+  unfold raceComplaints
+  simp only [List.append_eq_nil_iff]
+  constructor
+  · rintro ⟨h1, h2, h3⟩
+    refine ⟨?_, ?_, ?_⟩
+    · by_cases e : r.wins = 1
+      · exact e
+      · simp [e] at h1
+    · cases hf : r.final.isEnd
+      · simp [hf] at h2
+      · rfl
+    · intro s hs
+      cases ha : r.rememb.all (fun s => s == r.final)
+      · simp [ha] at h3
+      · exact (by simpa using List.all_eq_true.1 ha s hs)
+  · intro h
+    have ha : r.rememb.all (fun s => s == r.final) = true := by
+      simp only [List.all_eq_true, beq_iff_eq]; exact h.remembered
+    simp [h.oneWinner, h.ended, ha]
+
 /-- the monitor: judge one event and remember what was seen -/
 def checkEvent (m : Mon) (ev : EventKind) (s : Seen) : Mon × List String :=
   let m1 := cacheFor m ev
